@@ -76,12 +76,24 @@ contract(
     from_property="all combinations of the cache switches",
 )
 
+def _makedirs(R, args, kw, node, frame, recv):
+    """os.makedirs(d, exist_ok=True): OSError exactly when the ghost file system cannot provide the directory"""
+    from pyvc.core import PyRaise, Exc, mk_none
+    ok = R.ctx.uf_apply(R, "dir_makeable", [args[0]], Bool)
+    R.ctx.emit_log(R, "makedirs", args[0])
+    if not R.decide(ok.z, R.lab(node, "makedirs-ok")):
+        raise PyRaise(Exc("OSError", tag="os.makedirs"))
+    return mk_none()
+
+
 contract(
     CC + "update_cache", "C19", params=dict(ccode=CODE, cache_file_name=Union(NoneT, Str)), globals=dict(G, XSH=Obj("XSH", env=Obj("Env"))),
     externals={
-        "os.makedirs": Ext(event="makedirs", raises=["OSError"]), "os.path.dirname": Ext(ret=Str, pure=True),
+        "os.makedirs": Ext(model=_makedirs, event="makedirs", log_type=Str, note="ghost file system: fails (OSError) exactly when the directory cannot be made"),
+        "dir_makeable": Ext(ret=Bool, pure=True, uf="dir_makeable", args=[Str]), "os.path.dirname": Ext(ret=Str, pure=True),
         "is_writable_file": Ext(ret=Bool, pure=True), 'Env.get("XONSH_DEBUG")': Ext(ret=Bool, pure=True), "print_warning": Ext(),
-        "open": Ext(ret=FILE, event="open", raises=["OSError"]),
+        "open": Ext(ret=FILE, event="open", raises=["OSError", "FileExistsError", "PermissionError"],
+                    requires=["a1 == 'wb'"], note="the entry is opened for a TRUNCATING binary write: an existing (stale, truncated, foreign-version) entry is replaced"),
         "file.write": Ext(event="write", log=0, log_type=Bytes, raises=["OSError"]),
         "marshal.dump": Ext(event="dump", log=0, log_type=CODE, raises=["OSError", "ValueError"]),
     },
@@ -92,8 +104,11 @@ contract(
         "header-then-payload": 'implies(len(log("dump")) == 1, len(log("write")) == 2 and log("write")[0] == XONSH_VERSION.encode() + b"\\n" '
                                'and log("write")[1] == PYTHON_VERSION_INFO_BYTES + b"\\n" and log("dump")[0] == ccode)',
         "nothing-written-when-not-writable": 'implies(cache_file_name is None or not is_writable_file(cache_file_name), len(log("open")) == 0 and len(log("write")) == 0)',
+        "a-writable-entry-IS-rewritten-whenever-the-call-returns-normally (no silent keep of what was there)":
+            'implies(cache_file_name is not None and dir_makeable(os.path.dirname(cache_file_name)) and is_writable_file(cache_file_name), len(log("open")) == 1 and len(log("dump")) == 1)',
     },
-    from_property="entries written by another xonsh or Python version ... are ignored (the writer stamps both versions, one per line, before the payload)",
+    from_property="entries written by another xonsh or Python version ... are ignored AND REBUILT (the writer stamps both versions, one per line, before the payload, "
+                  "and replaces whatever entry was there); once the source is newer the new source runs",
 )
 
 # ---- cache key -------------------------------------------------------------------------------------
@@ -121,6 +136,8 @@ RUNX = {
 }
 RUNX.update({k: v for k, v in FS.items() if k not in RUNX})
 RUNX["is_writable_file"] = Ext(ret=Bool, pure=True)
+RUNX["os.path.dirname"] = Ext(ret=Str, pure=True)
+RUNX["dir_makeable"] = Ext(ret=Bool, pure=True, uf="dir_makeable", args=[Str])
 CHECK_RET = Tuple(Bool, Union(NoneT, CODE, OTHER))
 contract(
     CC + "run_script_with_cache", "C19",
